@@ -8,6 +8,7 @@ import (
 	"fmt"
 	"os"
 	"runtime"
+	"strings"
 	"testing"
 
 	"pgregory.net/rapid"
@@ -37,6 +38,9 @@ type profile struct {
 	aes           []string
 	adversarial   bool // C06 key sets
 	ageChoices    bool
+	upstreamEnc   bool // upstream answers may carry Content-Encoding gzip (valid or broken streams)
+	reloadW       int  // weight of no-op configuration reloads
+	longKeys      bool // adversarial keys include URIs longer than 256 bytes differing only in the middle
 	shardKeys     bool // address keys by LRU shard (small caches: makes evictions replayable)
 }
 
@@ -69,11 +73,15 @@ func genKeys(t *rapid.T, p *profile) []Key {
 // order, same URI on several hosts, GET+HEAD twins, and keys whose
 // method/host/URI split differently but look alike when concatenated
 func genAdversarialKeys(t *rapid.T, n int) []Key {
-	base := rapid.SampledFrom([]string{"/p", "/p/q", "/item", "/a b", "/x"}).Draw(t, "base")
+	base := rapid.SampledFrom([]string{"/p", "/p/q", "/item", "/x"}).Draw(t, "base")
+	long := func(mid string) string {
+		return base + "?q=" + strings.Repeat("search-term-", 16) + "&page=" + mid + "&sort=" + strings.Repeat("relevance-", 12)
+	}
 	variants := []string{
 		base, base + "/", base + "?a=1", base + "?a=2", base + "?a=1&b=2", base + "?b=2&a=1", base + "?", base + "?a=1&",
-		base + "x", base + "X", base[:len(base)-1], "/" + base, base + "%20", base + " ", base + "?a=1#f", base + "//",
+		base + "x", base + "X", base[:len(base)-1], "/" + base, base + "%20", base + "?a=1#f", base + "//",
 		base + "/.", base + "?a=%31", "/b.test" + base, base + "?a=1&a=1",
+		long("1"), long("2"), long("3"), long("7"),
 	}
 	var keys []Key
 	seen := map[string]bool{}
@@ -149,6 +157,12 @@ func (g *genState) outcome() *Outcome {
 		}
 		o.SMaxAge = rapid.IntRange(0, 4).Draw(g.t, "smaxage") == 0
 		o.ETag = rapid.SampledFrom([]string{"", "", "same", "same", "ver"}).Draw(g.t, "etag")
+		if g.p.upstreamEnc {
+			o.Enc = rapid.SampledFrom([]string{"", "", "", "gzip", "gzip", "gzip-broken"}).Draw(g.t, "enc")
+			if o.Enc != "" && rapid.Bool().Draw(g.t, "bigEnc") {
+				o.BodyLen = 6000 // above the default 1 KiB threshold once compressed
+			}
+		}
 		o.Status = rapid.SampledFrom([]int{0, 0, 0, 200, 201, 404, 301}).Draw(g.t, "status")
 	case "uncacheable":
 		o.Why = rapid.SampledFrom([]string{"no-cc", "no-store", "no-cache", "private", "set-cookie", "max-age=0"}).Draw(g.t, "why")
@@ -408,6 +422,10 @@ func genScenario(p *profile) func(t *rapid.T) Scenario {
 				g.macro(rapid.SampledFrom(p.macros).Draw(t, "macro"))
 				continue
 			}
+			if p.reloadW > 0 && rapid.IntRange(0, 99).Draw(t, "reloadP") < p.reloadW {
+				g.add(Op{K: "reload"})
+				continue
+			}
 			x := rapid.IntRange(0, total-1).Draw(t, "op")
 			kind := 0
 			for kind = 0; kind < len(p.w); kind++ {
@@ -534,7 +552,7 @@ var allOutcomes = []string{"cacheable", "cacheable", "cacheable", "uncacheable",
 
 func TestC01(t *testing.T) {
 	installWedge(t, "C01")
-	p := &profile{prop: "C01", minKeys: 1, maxKeys: 3, methods: []string{"GET", "GET", "GET", "HEAD"},
+	p := &profile{prop: "C01", minKeys: 1, maxKeys: 3, methods: []string{"GET", "GET", "GET", "HEAD"}, upstreamEnc: true, reloadW: 3,
 		stores: []string{""}, cacheSizes: []int{1000}, hfps: []int{0, 2}, proxyTimeouts: []int{0},
 		lifetimes: []int{1, 2, 3, 5}, outcomes: []string{"cacheable", "cacheable", "cacheable", "cacheable", "uncacheable", "transport_error"},
 		parkPct: 30, w: [6]int{40, 25, 15, 12, 2, 0}, minOps: 4, maxOps: 40,
@@ -547,7 +565,7 @@ func TestC01(t *testing.T) {
 
 func TestC02(t *testing.T) {
 	installWedge(t, "C02")
-	p := &profile{prop: "C02", minKeys: 1, maxKeys: 2, methods: []string{"GET", "GET", "HEAD"},
+	p := &profile{prop: "C02", minKeys: 1, maxKeys: 2, methods: []string{"GET", "GET", "HEAD"}, upstreamEnc: true, reloadW: 3,
 		stores: []string{"", "", "mem"}, cacheSizes: []int{1000}, hfps: []int{0, 1, 2}, proxyTimeouts: []int{0, 1000, 3000, 10000},
 		lifetimes: []int{1, 2, 5}, outcomes: allOutcomes,
 		parkPct: 35, w: [6]int{40, 25, 12, 12, 5, 0}, minOps: 4, maxOps: 40,
@@ -558,9 +576,24 @@ func TestC02(t *testing.T) {
 	}, stdClasses))
 }
 
+// TestC03Histories: the label / delivery clauses of C03 over histories (expiry,
+// refetches that turn uncacheable, waiters, passes), judged by the general automaton
+func TestC03Histories(t *testing.T) {
+	installWedge(t, "C03")
+	p := &profile{prop: "C03", minKeys: 1, maxKeys: 2, methods: []string{"GET", "GET", "HEAD", "POST", "DELETE"},
+		stores: []string{"", "", "mem"}, cacheSizes: []int{1000}, hfps: []int{0, 2}, proxyTimeouts: []int{0},
+		lifetimes: []int{1, 2, 5}, outcomes: []string{"cacheable", "cacheable", "uncacheable", "uncacheable", "status5xx"},
+		parkPct: 15, w: [6]int{45, 28, 17, 8, 2, 0}, minOps: 6, maxOps: 40,
+		macros: []string{"burst", "epochs", "hfpBurst"}, macroPct: 15, reloadW: 2,
+		bodyLens: []int{0, 40}, aes: []string{"", "gzip"}}
+	vstat.Run(t, "C03", "sim", genScenario(p), execSim(t, "C03", func(s *modelStats, tr *trace) bool {
+		return s.Epochs >= 1 && s.FailedFetches >= 1 && s.Waiters >= 1
+	}, stdClasses))
+}
+
 func TestC04(t *testing.T) {
 	installWedge(t, "C04")
-	p := &profile{prop: "C04", minKeys: 1, maxKeys: 1, methods: []string{"GET", "GET", "GET", "HEAD"},
+	p := &profile{prop: "C04", minKeys: 1, maxKeys: 1, methods: []string{"GET", "GET", "GET", "HEAD"}, reloadW: 3,
 		stores: []string{"", "", "mem", "lazy"}, cacheSizes: []int{1000}, hfps: []int{0, 1}, proxyTimeouts: []int{0},
 		lifetimes: []int{1, 2, 3, 4, 5, 6, 7, 8, 9, 10, 60, 3600, 31536000}, outcomes: []string{"cacheable", "cacheable", "cacheable", "cacheable", "cacheable", "uncacheable"},
 		parkPct: 5, w: [6]int{40, 25, 30, 3, 0, 0}, minOps: 6, maxOps: 50,
@@ -573,7 +606,7 @@ func TestC04(t *testing.T) {
 
 func TestC07(t *testing.T) {
 	installWedge(t, "C07")
-	p := &profile{prop: "C07", minKeys: 1, maxKeys: 2, methods: []string{"GET", "GET", "GET", "HEAD"},
+	p := &profile{prop: "C07", minKeys: 1, maxKeys: 2, methods: []string{"GET", "GET", "GET", "HEAD"}, reloadW: 6,
 		stores: []string{"", "", "lazy"}, cacheSizes: []int{1000}, hfps: []int{0, -5, 1, 2, 5, 60, 300}, proxyTimeouts: []int{0},
 		lifetimes: []int{1, 2, 5}, outcomes: []string{"cacheable", "uncacheable", "uncacheable", "transport_error", "status5xx"},
 		parkPct: 10, w: [6]int{45, 25, 22, 5, 0, 0}, minOps: 6, maxOps: 45,
@@ -586,7 +619,7 @@ func TestC07(t *testing.T) {
 
 func TestC18(t *testing.T) {
 	installWedge(t, "C18")
-	p := &profile{prop: "C18", minKeys: 2, maxKeys: 4, methods: []string{"GET", "GET", "GET", "HEAD"},
+	p := &profile{prop: "C18", minKeys: 2, maxKeys: 4, methods: []string{"GET", "GET", "GET", "HEAD"}, reloadW: 4,
 		twoServers: 70, stores: []string{"", "mem", "mem", "lazy"}, cacheSizes: []int{1000}, hfps: []int{0, 2}, proxyTimeouts: []int{0},
 		lifetimes: []int{2, 5, 60}, outcomes: []string{"cacheable", "cacheable", "cacheable", "uncacheable", "transport_error"},
 		parkPct: 20, w: [6]int{40, 25, 8, 10, 17, 0}, minOps: 6, maxOps: 45,
@@ -612,7 +645,7 @@ func TestC10(t *testing.T) {
 
 func TestC06(t *testing.T) {
 	installWedge(t, "C06")
-	p := &profile{prop: "C06", minKeys: 4, maxKeys: 40, adversarial: true,
+	p := &profile{prop: "C06", minKeys: 4, maxKeys: 40, adversarial: true, longKeys: true,
 		twoServers: 20, stores: []string{"", "", "mem"}, cacheSizes: []int{8, 8, 16, 24}, hfps: []int{0, 2}, proxyTimeouts: []int{0},
 		lifetimes: []int{2, 60}, outcomes: []string{"cacheable", "cacheable", "cacheable", "uncacheable"},
 		parkPct: 5, w: [6]int{50, 35, 5, 3, 7, 0}, minOps: 10, maxOps: 120,
